@@ -109,12 +109,14 @@ def structure_class(ant, loads, env=None):
     return cls
 
 
-def gen_case(rng, uniform=True, small=True, families=None):
+def gen_case(rng, uniform=True, small=True, families=None, env_choice=None):
     kw = dict(len_jitter=(1, 1), rad_jitter=(1, 1)) if uniform else {}
     ant = antgen.gen_antenna(rng, families=families, max_pulses=14 if small else 30, **kw)
     env = 'free'
     if ant['ground']:
         env = rng.choice(['ideal', 'ideal', 'real1', 'real2', 'radials'])
+        if env_choice:
+            env = env_choice
     m = build(ant, env, [])
     N = len(m.pulses)
     loads = []
@@ -287,10 +289,14 @@ def run(ck):
     worst = 0.0
     worst_id = 0.0
     ntv = 20 if ck.tier == 'quick' else 150        # further inverted Vs of tapered legs (bounded known-finding class, asserted at 4 %)
-    for i in range(n + ntv):
+    nme = 12 if ck.tier == 'quick' else 80         # sloped monopoles whose second end is on a perfect ground
+    for i in range(n + ntv + nme):
         uniform = (i % 5 != 4) or i >= n
-        case = gen_case(rng, uniform=uniform, small=ck.tier == 'quick',
-                        families=['taper_vee'] if i >= n else ['varray'] if i % 9 == 2 else ['monopole'] if i % 9 in (5, 7) else ['taper_vee'] if i % 9 == 3 else None)
+        me = i >= n + ntv
+        # sloped wires ending on the ground are solved over a perfect ground as well as over the other kinds: over a lossy ground
+        # only an excess of radiated power is a violation, over a perfect ground the balance has to close either way
+        case = gen_case(rng, uniform=uniform, small=ck.tier == 'quick', env_choice='ideal' if me else None,
+                        families=['monopole_end2'] if me else ['taper_vee'] if i >= n else ['varray'] if i % 9 == 2 else ['monopole'] if i % 9 == 5 else ['monopole_end2'] if i % 9 == 7 else ['taper_vee'] if i % 9 == 3 else None)
         if not in_domain(case['ant']):
             ck.count('outside_modelling_rules')
             continue
